@@ -64,14 +64,10 @@ Proof. exact render_claim_refuted. Qed.
 Print Assumptions C03_render_refuted.
 Theorem C03_render_refuted_F1 : refutes G_GROUP w_F1. Proof. exact refuted_F1. Qed.
 Print Assumptions C03_render_refuted_F1.
-Theorem C03_render_refuted_F2 : refutes G_DICT_UNPACK w_F2. Proof. exact refuted_F2. Qed.
-Print Assumptions C03_render_refuted_F2.
 Theorem C03_render_refuted_F3 : refutes G_FSTRING w_F3. Proof. exact refuted_F3. Qed.
 Print Assumptions C03_render_refuted_F3.
 Theorem C03_render_refuted_F4 : refutes G_LAMBDA w_F4 /\ refutes G_LAMBDA w_F4b. Proof. exact (conj refuted_F4 refuted_F4b). Qed.
 Print Assumptions C03_render_refuted_F4.
-Theorem C03_render_refuted_F5 : refutes G_DICTCOMP w_F5. Proof. exact refuted_F5. Qed.
-Print Assumptions C03_render_refuted_F5.
 Theorem C03_render_refuted_F6 : refutes G_GENEXP w_F6. Proof. exact refuted_F6. Qed.
 Print Assumptions C03_render_refuted_F6.
 Theorem C03_render_refuted_F7 : refutes G_EMPTY_SLICE_TUPLE w_F7. Proof. exact refuted_F7. Qed.
@@ -82,12 +78,8 @@ Theorem C03_render_refuted_F9 : refutes G_INT_ATTR w_F9. Proof. exact refuted_F9
 Print Assumptions C03_render_refuted_F9.
 Theorem C03_render_refuted_F10 : refutes G_AWAIT w_F10. Proof. exact refuted_F10. Qed.
 Print Assumptions C03_render_refuted_F10.
-Theorem C03_render_refuted_F11 : refutes G_SUBSCRIPT_LEAK w_F11. Proof. exact refuted_F11. Qed.
-Print Assumptions C03_render_refuted_F11.
-Theorem C03_render_refuted_F12 : refutes G_INF w_F12. Proof. exact refuted_F12. Qed.
-Print Assumptions C03_render_refuted_F12.
 
-(* the strongest true statement: outside the twelve decidable gap families, for every well-formed tree of any depth and
+(* the strongest true statement: outside the eight decidable gap families that remain after the repairs (F2, F5, F11, F12 fixed), for every well-formed tree of any depth and
    width and every storing position (top = minimal precedence of the position), str(build e) is, character for
    character, the text of the precedence-aware reference printer *)
 Theorem C03_render_eq_reference_modulo_known : forall top e,
